@@ -221,6 +221,7 @@ func runC12(seed uint64, ncases int, outPath string, replaySeed uint64, hasRepla
 
 		origSX, col := dumpNet(w.net)
 		origCanon := Canon(origSX).String()
+		origRecv := Canon(dumpReceivedOpt(col, true))
 		size := len(origCanon)
 		fmt.Fprintf(out, "N %s %s\n", id, origSX.String())
 		if opLog != nil {
@@ -270,9 +271,13 @@ func runC12(seed uint64, ncases int, outPath string, replaySeed uint64, hasRepla
 				case o.err != nil:
 					st.fail("c12-load-error:"+errClass(o.err), fmt.Sprintf("LoadNetwork(%s) refuses what SaveNetwork wrote: %v", eid, o.err), size, replay)
 				default:
-					gotSX, _ := dumpLoadedNet(o.net)
+					gotSX, gotCol := dumpLoadedNet(o.net)
 					if d := Diff("", Canon(origSX), Canon(gotSX)); d != "" {
 						st.fail("c12-roundtrip:"+diffClass(d), fmt.Sprintf("save/load (%s) changes the network: original vs loaded differ at %s", eid, d), size, replay)
+					}
+					// the converse of the receiver relation (interfaces list what they receive) is restored too
+					if d := Diff("", origRecv, Canon(dumpReceivedOpt(gotCol, true))); d != "" {
+						st.fail("c12-roundtrip:received-messages", fmt.Sprintf("save/load (%s) changes which interfaces list which messages as received: %s", eid, d), size, replay)
 					}
 					if origFail == "" {
 						got, gf := derived(o.net, payloads)
@@ -302,8 +307,8 @@ func runC12(seed uint64, ncases int, outPath string, replaySeed uint64, hasRepla
 						if o.err != nil {
 							fmt.Fprintf(out, "L %s %s (err)\n", id, eid)
 						} else {
-							gotSX, _ := dumpLoadedNet(o.net)
-							fmt.Fprintf(out, "L %s %s (ok %s)\n", id, eid, gotSX.String())
+							gotSX, gcol := dumpLoadedNet(o.net)
+							fmt.Fprintf(out, "L %s %s (ok %s %s)\n", id, eid, gotSX.String(), dumpReceived(gcol).String())
 						}
 					}
 				}
@@ -316,6 +321,11 @@ func runC12(seed uint64, ncases int, outPath string, replaySeed uint64, hasRepla
 	if !hasReplay {
 		outOfDomain(st)
 	}
+	// end marker: a case file without it was cut short
+	fmt.Fprintf(out, "END %d\n", st.cases)
+	if err := out.Flush(); err != nil {
+		panic(err)
+	}
 	writeSummary(outPath+".summary", st)
 }
 
@@ -324,8 +334,9 @@ func runC12(seed uint64, ncases int, outPath string, replaySeed uint64, hasRepla
 // these values (uint32 / int32 fields, a zero field reads as absent): the failures are recorded findings.
 func outOfDomain(st *c12Stats) {
 	type ood struct {
-		kind  string
-		build func() *acmelib.Network
+		kind   string
+		expect string // the differences the recorded finding consists of (path: original vs loaded), joined by " | "
+		build  func() *acmelib.Network
 	}
 	base := func() (*acmelib.Network, *acmelib.Bus, *acmelib.Message) {
 		n := acmelib.NewNetwork("ood")
@@ -338,18 +349,18 @@ func outOfDomain(st *c12Stats) {
 		return n, b, m
 	}
 	cases := []ood{
-		{"int-beyond-int32", func() *acmelib.Network {
+		{"int-beyond-int32", "/net[2]/buses[1]/bus[6]/as[1]/a[2]/i[1]: 34359738368 vs 0 | /net[8]/attrs[1]/at[2]/int[3]: 1099511627776 vs 0", func() *acmelib.Network {
 			n, b, _ := base()
 			a, _ := acmelib.NewIntegerAttribute("att", 0, 0, 1<<40)
 			b.AssignAttribute(a, 1<<35)
 			return n
 		}},
-		{"int-beyond-uint32", func() *acmelib.Network {
+		{"int-beyond-uint32", "/net[2]/buses[1]/bus[2]: 1099511627776 vs 0", func() *acmelib.Network {
 			n, b, _ := base()
 			b.SetBaudrate(1 << 40)
 			return n
 		}},
-		{"enum-min-size-zero", func() *acmelib.Network {
+		{"enum-min-size-zero", "/net[7]/enums[1]/en[2]: 0 vs 1", func() *acmelib.Network {
 			n, _, m := base()
 			e := acmelib.NewSignalEnum("enum")
 			e.SetMinSize(0)
@@ -357,7 +368,7 @@ func outOfDomain(st *c12Stats) {
 			m.AppendSignal(s)
 			return n
 		}},
-		{"start-value-negative-zero", func() *acmelib.Network {
+		{"start-value-negative-zero", "/net[2]/buses[1]/bus[5]/ifaces[1]/if[3]/msgs[1]/msg[13]/sigs[1]/std[1]/h[3]: 9223372036854775808 vs 0", func() *acmelib.Network {
 			n, _, m := base()
 			s, _ := acmelib.NewStandardSignal("sig", acmelib.NewFlagSignalType("flag"))
 			s.SetStartValue(math.Copysign(0, -1))
@@ -381,8 +392,16 @@ func outOfDomain(st *c12Stats) {
 		}
 		a, _ := dumpNet(n)
 		g, _ := dumpLoadedNet(o.net)
-		if d := Diff("", Canon(a), Canon(g)); d != "" {
-			st.fail("c12-domain:"+c.kind, fmt.Sprintf("value outside the ranges of the save format is not reproduced (%s): %s", c.kind, d), 0, "ood:"+c.kind)
+		// the recorded finding is exactly: the one out-of-domain field comes back as the documented value and
+		// nothing else differs; any other difference keeps its own signature
+		diffs := DiffAll("", Canon(a), Canon(g), nil)
+		switch {
+		case len(diffs) == 0:
+			st.hist["out-of-domain-reproduced-"+c.kind]++
+		case strings.Join(diffs, " | ") == c.expect:
+			st.fail("c12-domain:"+c.kind, fmt.Sprintf("value outside the ranges of the save format is not reproduced (%s): %s", c.kind, c.expect), 0, "ood:"+c.kind)
+		default:
+			st.fail("c12-domain-unexpected:"+c.kind+":"+diffClass(diffs[0]), fmt.Sprintf("save + load of the out-of-domain network (%s) differs in another way than the recorded loss %q: %s", c.kind, c.expect, strings.Join(diffs, " | ")), 0, "ood:"+c.kind)
 		}
 	}
 }
